@@ -1,0 +1,18 @@
+//go:build verif
+
+package bip32path
+
+// Machine-checked contracts for this package (read by /verif/govc; comment-only, compiled only
+// with -tags verif). See /verif/DESIGN.md.
+//
+// Component level only: the digits of a path component are read in base 10 and must be below 2^31.
+// The framing of a path string (strings.Split, the regular expression, fmt's %d) is outside the
+// supported subset and is not under contract.
+
+//@ props C10
+
+//@ func parseUint31(s string) (r uint32, err error)
+//@   panics  never
+//@   ensures isnil(err) == (strconv.decok(s) && strconv.decval(s) < 2147483648)
+//@   ensures implies(isnil(err), mathint(r) == strconv.decval(s))
+//@   ensures implies(!isnil(err), r == 0)
